@@ -331,7 +331,7 @@ def _loop_fill(ctx, b, d, term, kind):
     rk = _root_kind(ctx, b, root)
     if rk is None and src[0] == "call" and src[1].startswith(II + "::") and len(src[2]) == 1:
         rk = II_FIELDS.get(src[1].rsplit("::", 1)[-1])
-    return len(mine) == 1 and mine[0][1] == "true" and rk == kind
+    return v["complete"] and len(mine) == 1 and mine[0][1] == "true" and rk == kind
 
 
 def _check_chain(ctx, body, term, kind, anchor, site):
